@@ -153,8 +153,15 @@ fn case(ctx: &mut Ctx, index: u64, rng: &mut Rng) {
             (PATHS[p].into(), None, mm.name.into(), args.clone(), "no-interface-header", Expect::NoInterface(good_reply.clone(), err), Some(inv), true)
         };
         let mut m = Msg::method_call(serial, &path, iface_name.as_deref(), &member).with_body(body.clone());
+        // the other two flag bits ride along at random (with and without the no-reply bit)
+        let other_flags = *rng.pick(&[0u8, 0, 2, 4, 6]);
         if noreply {
-            m = m.with_flags(1);
+            m = m.with_flags(1 | other_flags);
+            if other_flags != 0 {
+                ctx.count("class:no-reply-with-other-flags", 1);
+            }
+        } else if other_flags != 0 {
+            m = m.with_flags(other_flags);
         }
         let chunks: Vec<usize> = if rng.bool() { vec![] } else { vec![1 + rng.usize_below(64)] };
         rig.peer.send(&m, vec![], &chunks);
